@@ -56,6 +56,10 @@ func setupFixtures() {
 		regCert("n.missing", k1, `{"prins":["alice"],"transID":"b1","reqUser":"alice","reqIP":"1.2.3.4","reqHost":"h","isFirefighter":false,"isHWKey":true,"isHeadless":false,"isNonce":false,"usage":0,"ver":1}`, t-h, t+h, nil)
 		regCert("n.ver2", k1, `{"prins":["alice"],"transID":"b2","reqUser":"alice","reqIP":"1.2.3.4","reqHost":"h","isFirefighter":false,"isHWKey":true,"isHeadless":false,"isNonce":false,"usage":0,"touchPolicy":1,"ver":2}`, t-h, t+h, nil)
 		regCert("n.inconsistent", k1, `{"prins":["alice"],"transID":"b3","reqUser":"alice","reqIP":"1.2.3.4","reqHost":"h","isFirefighter":false,"isHWKey":true,"isHeadless":true,"isNonce":false,"usage":0,"touchPolicy":1,"ver":1}`, t-h, t+h, nil)
+		// further near misses, each lacking ONE other required member (a decoder whose notion of "required" drifts with what it
+		// decoded before treats one of them as valid after another)
+		regCert("n.noprins", k2, `{"transID":"b4","reqUser":"alice","reqIP":"1.2.3.4","reqHost":"h","isFirefighter":false,"isHWKey":true,"isHeadless":false,"isNonce":false,"usage":0,"touchPolicy":1,"ver":1}`, t-h, t+h, nil)
+		regCert("n.nohw", k2, `{"prins":["alice"],"transID":"b5","reqUser":"alice","reqIP":"1.2.3.4","reqHost":"h","isFirefighter":false,"isHeadless":false,"isNonce":false,"usage":0,"touchPolicy":1,"ver":1}`, t-h, t+h, nil)
 		regCert("n.free", k2, "free text", t-h, t+h, nil)
 		regCert("n.empty", k2, "", t-h, t+h, nil)
 	})
